@@ -37,6 +37,9 @@ def main():
     checks_only = "--checks-only" in a      # patch + checks only: demo / suite results are taken from the kept meta.json
     if checks_only:                         # (valid while /repo's HEAD is the one those were run against)
         a.remove("--checks-only")
+    no_suite = "--no-suite" in a            # demos are re-run (seconds), only the suite result is taken from the kept meta.json
+    if no_suite:
+        a.remove("--no-suite")
     if "--keep" in a:
         i = a.index("--keep")
         keep = a[i + 1]
@@ -69,6 +72,16 @@ def main():
         if checks_only:
             for k in ("suite_rc", "suite_tail", "demo_patched_rc"):
                 res[k] = prior.get(k)
+        elif no_suite:
+            try:
+                prior = json.load(open(os.path.join(src, "meta.json"))).get("trial", {})
+            except Exception:
+                prior = {}
+            res["suite_rc"], res["suite_tail"] = prior.get("suite_rc"), prior.get("suite_tail")
+            res["suite_reused"] = True
+            rc, out, t = sh(demo_cmd, cwd=wt, env=pyenv, timeout=600)
+            res["demo_patched_rc"] = rc
+            res["demo_patched_tail"] = out.strip()[-400:]
         else:
             for _attempt in (1, 2):   # the suite has timing-sensitive tests: one retry when the box is loaded
                 rc, out, t = sh("/venv/bin/python -m pytest -q -p no:cacheprovider --timeout=900", cwd=wt, env=pyenv, timeout=1800)
@@ -117,6 +130,9 @@ def main():
         meta["trial"] = {k: res.get(k) for k in ("demo_clean_rc", "suite_rc", "suite_tail", "demo_patched_rc", "checks", "caught_by", "tier")}
         if checks_only:
             meta["trial"]["checks_rerun_only"] = True
+        if no_suite:
+            meta["trial"]["suite_result_reused"] = True
+        meta["trial"]["repo_head"] = subprocess.run(["git", "-C", wt, "rev-parse", "--short", "HEAD"], capture_output=True, text=True).stdout.strip()
         meta["ran"] = ["demo on the clean worktree (exit 0)", "unedited pytest suite with the patch applied",
                        "demo with the patch applied (exit != 0)",
                        "VERIF_REPO=<scratch worktree> ./check <property> %s" % tier]
